@@ -3660,7 +3660,8 @@ func hyphenateCharacter(tokens []Token, _ string) pr.CssProperty {
 	token := tokens[0]
 	keyword := getKeyword(token)
 	if keyword == "auto" {
-		return pr.String("‐")
+		// same string as the initial value, which is auto
+		return pr.InitialValues[pr.PHyphenateCharacter]
 	} else if str, ok := token.(pa.String); ok {
 		return pr.String(str.Value)
 	}
